@@ -36,6 +36,7 @@ package cdb
 //@ updates hN, hL
 //@ ensures[tee] teeOf[recv] != 0 && err == nil ==> hN == upd(old(hN), teeOf[recv], old(hN)[teeOf[recv]] + 1) && hL == upd(old(hL), teeOf[recv], string(p))
 //@ ensures[other] teeOf[recv] == 0 ==> hN == old(hN) && hL == old(hL)
+//@ ensures[hasher] teeOf[recv] == recv ==> err == nil
 //@ extern hash Hash32.Sum32
 //@ pure
 //@ ensures hN[recv] == 1 ==> result == spookyStream(hL[recv])
@@ -43,10 +44,15 @@ package cdb
 //@ pure
 //@ ensures result == spookyOne(string(message))
 //@ extern github.com/dgryski/go-spooky New
-//@ ensures result != nil && teeOf[result] == result
+//@ ensures result != nil && teeOf[result] == result && hN[result] == 0
 
 //@ func cdbHash
-//@ ensures result != nil && teeOf[result] == result
+//@ ensures result != nil && teeOf[result] == result && hN[result] == 0
+
+// keyHash: the lookup side computes the writers' function of the key.
+//@ func keyHash
+//@ updates hN, hL
+//@ ensures[same] result == spookyStream(string(key))
 
 // Record layout and table bookkeeping of one Put (C16): the record occupies 8+klen+dlen bytes at the old
 // position and is registered, last in put order, in table h%256 with its hash and that position.
